@@ -405,7 +405,14 @@ pub fn main_run(args: &[String]) -> i32 {
     // thorough tier: the Miri stage (preemption at every memory access, not only at yield points)
     let mut miri_json = json!({"status": "not part of this tier"});
     if tier == "thorough" && matches!(prop.as_str(), "C08" | "C10" | "C12" | "C13") && exit == 0 {
-        let st = run_miri_stage(&prop, seed, 16, 12);
+        // scenario executions per interpreter seed: C10's oracle runs sequential twins, which are slow
+        // under the interpreter
+        let per_seed = match prop.as_str() {
+            "C10" => 2,
+            "C13" => 6,
+            _ => 10,
+        };
+        let st = run_miri_stage(&prop, seed, 16, per_seed);
         println!("miri stage: {} - {} scenario executions over {} interpreter seeds in {:.0}s, {} violation(s)", st.status, st.executions, st.seeds, st.wall_s, st.violations.len());
         miri_json = json!({"status": st.status, "scenario_executions": st.executions, "interpreter_seeds": st.seeds, "wall_s": st.wall_s, "violations": st.violations.len(),
             "flags": miri_flags(0), "note": "free-running mode: the baton scheduler is off, Miri decides the interleaving and may preempt at every basic block; same oracles"});
